@@ -471,4 +471,42 @@ func loadHosts(hc host_rule_conf.HostConf) (host_rule_conf.HostConf, error) {
 	return host_rule_conf.HostRuleConfLoad(name)
 }
 
+func init() {
+	// every combination of {exact, *.a.b, *.b, *, VIP entry, default product} x probes at every depth:
+	// the precedence exact > longest wildcard > VIP > default > none under all combinations
+	vh.Pre = func(emit func(string), thorough bool) {
+		cands := []string{"a.b>t1>pExact", "*.a.b>t2>pWildAB", "*.b>t3>pWildB", "*>t4>pStar"}
+		probes := []string{"a.b", "x.a.b", "x.y.a.b", "b", "y.b", "c", "A.B.:80"}
+		for mask := 0; mask < 64; mask++ {
+			var es []string
+			for i, c := range cands {
+				if mask&(1<<uint(i)) != 0 {
+					es = append(es, c)
+				}
+			}
+			v, d := "", ""
+			if mask&16 != 0 {
+				v = "10.0.0.1~00000000000000000000ffff0a000001>pVip"
+			}
+			if mask&32 != 0 {
+				d = "pDef"
+			}
+			for i, h := range probes {
+				ip := "0a000001"
+				if i%3 == 2 {
+					ip = "nil"
+				}
+				op := "t=" + strings.Join(es, "&") + ";v=" + v + ";d=" + d + ";h=" + h + ";ip=" + ip + ";u="
+				switch (mask + i) % 3 {
+				case 0:
+					op += ";ld=1"
+				case 1:
+					op += ";pre=1"
+				}
+				emit(op)
+			}
+		}
+	}
+}
+
 func main() { vh.Main(gen, exec) }
